@@ -5,35 +5,8 @@
 From V.model Require Import Base Deb822Lex Deb822Parse Grammar XGrammar Deb822Edit Deb822Wrap WrapSpec XWrapSpec.
 From V.proofs Require Import BaseP Deb822LexP Deb822ParseP Deb822EditP Deb822WrapP WrapTokP ParseTokP ParseImageP.
 
-(* ---------------------------------------------------------------- the field: what rebuild_value makes of it *)
-Definition is_pnone (p : xpay) : bool := match p with PNone => true | _ => false end.
-Definition blank_cont (c : xcont) : bool := is_pnone (xc_pay c).
-(* trailing empty continuation lines are dropped *)
-Definition strip_conts (cs : list xcont) : list xcont := rev (drop_while blank_cont (rev cs)).
-(* ... and leading empty lines: the first line that holds something, and the lines after it *)
-Fixpoint drop_blank (p : xpay) (cs : list xcont) : xpay * list xcont :=
-  match p, cs with
-  | PNone, c :: r => drop_blank (xc_pay c) r
-  | _, _ => (p, cs)
-  end.
-Definition head_pay (f : xfield) : xpay := match x_first f with [] => PNone | s => PVal s end.
-Definition reindent (n : N) (c : xcont) : xcont := mk_xcont (xc_nl c) (spaces n) (xc_pay c).
-Definition pay_hash (p : xpay) : bool := match p with PVal s => starts_with_hash s | _ => false end.
-Definition is_pcom (p : xpay) : bool := match p with PCom _ => true | _ => false end.
-
-Definition x_ws_field (n : N) (iel : bool) (mll : option N) (f : xfield) : xfield :=
-  let cs := strip_conts (x_cont f) in
-  let empty := is_pnone (head_pay f) && is_nil cs in
-  let fll := (if empty then utf8_size (x_name f) + 2
-              else utf8_size (x_w0 f) + utf8_size (x_w1 f) + utf8_size (x_first f) + utf8_size (x_name f) + 2)%N in
-  if (match mll with Some m => (fll <=? m)%N | None => false end) && is_nil cs then
-    if empty then mk_xfield (x_name f) [] [] [] [] (Some LF)
-    else mk_xfield (x_name f) [] (x_w0 f ++ x_w1 f) (x_first f) [] (Some LF)
-  else
-    let '(p1, rest) := drop_blank (head_pay f) cs in
-    let down := (iel && negb (is_nil cs) && negb (pay_hash p1)) || is_pcom p1 in
-    if down then mk_xfield (x_name f) [] [] [] (mk_xcont LF (spaces n) p1 :: map (reindent n) rest) (Some LF)
-    else mk_xfield (x_name f) [] [32%N] (match p1 with PVal v => v | _ => [] end) (map (reindent n) rest) (Some LF).
+(* the field step x_ws_field (the specification of what rebuild_value makes of any accepted field)
+   is in model/XWrapSpec.v *)
 
 (* ---- the value tokens of a field ---- *)
 Definition ctoks (c : xcont) : list token := (NEWLINE, [xc_nl c]) :: pay_toks (xc_pay c).
